@@ -164,6 +164,33 @@ def run_bounded(chk):
                     break
             if bad:
                 fails.append((f"{klass}:{name}/rotated+offset/s={sc:g}/{member}/repeated", {"points": P.tolist(), "member": member, **bad}))
+    # the balls follow the shape: read every ball, move / resize / reorient the object through its public mutators, read again,
+    # against a freshly constructed shape with the current vertices
+    from . import stale
+
+    def all_balls(shape):
+        out = {}
+        for b in ("minimal_bounding_sphere", "minimal_centered_bounding_sphere", "maximal_centered_bounded_sphere", "circumsphere", "insphere",
+                  "minimal_bounding_circle", "minimal_centered_bounding_circle", "maximal_centered_bounded_circle", "circumcircle", "incircle"):
+            if not hasattr(type(shape), b):
+                continue
+            try:
+                ball = getattr(shape, b)
+                out[b + ".radius"] = float(ball.radius)
+                out[b + ".center"] = np.asarray(ball.centroid, float).reshape(-1)
+            except (RuntimeError, NotImplementedError, AttributeError) as e:
+                out[b] = f"raises {type(e).__name__}"
+        return out
+    box = np.array([[x, y, z] for x in (0.0, 1.0) for y in (0.0, 2.0) for z in (0.0, 3.0)])
+    skew = box @ np.array([[0.8, -0.6, 0.0], [0.6, 0.8, 0.0], [0.0, 0.0, 1.0]]).T @ Rx.T + np.array([5.0, -3.0, 2.0])
+    rect = np.array([[0.0, 0, 0], [3, 0, 0], [3, 1, 0], [0, 1, 0]]) @ Rx.T + np.array([2.0, 1.0, -1.0])
+    hist = []
+    cp = cox.shapes.ConvexPolyhedron(skew)
+    subjects = [("ConvexPolyhedron:box", cp), ("Polyhedron:box", cox.shapes.Polyhedron(np.asarray(cp.vertices), [list(map(int, f)) for f in cp.faces])),
+                ("ConvexPolygon:rect", cox.shapes.ConvexPolygon(rect)), ("Polygon:rect", cox.shapes.Polygon(rect))]
+    for label, obj in subjects:
+        n_eval += stale.read_mutate_read(obj, all_balls, f"history:{label}", hist, tol_size=1e-3)
+    fails += hist
     for name, info in fails[:5]:
         chk.record(f"bounded:balls[{name}]", fkey, "bounded-fail", "definition-check", detail=str(info)[:500], model={}, kind="bounded",
                    replay=lambda m, info=info, name=name: (True, {"case": name, **info}))
@@ -172,7 +199,7 @@ def run_bounded(chk):
     chk.bounded.append({"clause": "a circum-/in-ball is returned exactly when one exists and then touches every vertex / face; minimal bounding "
                                   "balls contain every vertex and equal the brute-force smallest enclosing ball; centred balls match their definition",
                         "bound": "10 cyclic/tangential/generic polyhedra and polygons x scales {1e-3,1e-2,1,1e2,1e3} x 4 placements; "
-                                 "6 (quick) named convex solids, 2 obtuse tetrahedra and 9 polygons (incl. obtuse / right triangles and slivers whose ball is spanned by 2 points; Polygon and ConvexPolygon) for the miniball clauses (brute force over support sets of 2-4 points); square pyramid, dodecahedron, regular 24- and 120-gon rotated off the axes at scales {1e-3,1,1e3}, each queried 25 (quick) / 200 times because miniball is randomised",
+                                 "6 (quick) named convex solids, 2 obtuse tetrahedra and 9 polygons (incl. obtuse / right triangles and slivers whose ball is spanned by 2 points; Polygon and ConvexPolygon) for the miniball clauses (brute force over support sets of 2-4 points); square pyramid, dodecahedron, regular 24- and 120-gon rotated off the axes at scales {1e-3,1,1e3}, each queried 25 (quick) / 200 times because miniball is randomised; 4 off-origin objects: all balls read, object moved / resized / reoriented, read again",
                         "evaluations": n_eval, "distinct_nontrivial": n_eval, "rule": "distinct = (shape, scale, placement, member)",
                         "samples": [{"shape": "box", "scale": 0.01, "member": "circumsphere", "exists": True}],
                         "failures": len(fails), "exhaustive": False})
